@@ -64,6 +64,10 @@ class Winnow:
         self.I = I
         self.memo = {}
         self.stats = dict(runs=0, memo_hits=0)
+        # number of parser-function activations the real (non-memoising) parser performs: a memo hit adds the recorded cost of the
+        # activation it stands for, so exponential re-parsing shows as a number although the model itself stays polynomial
+        self.work = 0
+        self.memo_cost = {}
 
     # --------------------------------------------------------------- stream helpers
     def s_len(self, s):
@@ -208,7 +212,10 @@ class Winnow:
             hit = self.memo.get(key)
             if hit is not None:
                 self.stats["memo_hits"] += 1
+                self.work += self.memo_cost.get(key, 1)
                 return hit
+        w0 = self.work
+        self.work += 1
         cell = ("tmp", id(object()), self.stats["runs"])
         st2 = st.fork()
         st2.pc = ()            # explore with an empty path condition so that the result is reusable
@@ -232,6 +239,7 @@ class Winnow:
         res = self.norm(res, st)
         if key is not None:
             self.memo[key] = res
+            self.memo_cost[key] = self.work - w0
         return res
 
     def result_to_outcomes(self, rv, sp):
